@@ -118,45 +118,57 @@ def run(ctx, rep):
         meth = t['callee']['path'].split('::')[-1]
 
         def root(op):
+            """('param', i) | ('curprec',) | ('?',): what a comparison operand (a reference) designates"""
             d = pe.def_rvalue(op)
-            # &X
-            cur = pe.resolve_copy(op)
-            l = op_local(cur)
             if d and d[0] == 'assign' and d[3]['k'] == 'ref':
                 pl = d[3]['place']
                 if not pl['proj']:
                     if 1 <= pl['local'] <= pe.arg_count:
                         return ('param', pl['local'])
                     d2 = pe.single_def(pl['local'])
-                    if d2 and d2[0] == 'call':
-                        return ('call', callee_name(d2[2]), d2[2])
-            return ('?', None)
+                    if d2 and d2[0] == 'call' and callee_name(d2[2]).endswith('::precedence'):
+                        # precedence() of self.current_token, or of a local copy of it
+                        d3 = pe.def_rvalue(d2[2]['args'][0])
+                        if d3 and d3[0] == 'assign' and d3[3]['k'] == 'ref':
+                            pl3 = d3[3]['place']
+                            if place_fields(pl3) == ['current_token']:
+                                return ('curprec',)
+                            if not pl3['proj']:
+                                d4 = pe.single_def(pl3['local'])
+                                if d4 and d4[0] == 'assign' and d4[3]['k'] == 'use' and d4[3]['op'].get('place') and place_fields(d4[3]['op']['place']) == ['current_token']:
+                                    return ('curprec',)
+            return ('?',)
         a0, a1 = root(t['args'][0]), root(t['args'][1])
-
-        def is_cur_prec(r):
-            if r[0] != 'call' or not r[1].endswith('::precedence'):
-                return False
-            d = pe.def_rvalue(r[2]['args'][0])
-            return bool(d and d[0] == 'assign' and d[3]['k'] == 'ref' and place_fields(d[3]['place']) == ['current_token'])
-        ok = (meth == 'lt' and a0 == ('param', 2) and is_cur_prec(a1)) or (meth == 'gt' and a1 == ('param', 2) and is_cur_prec(a0))
-        rep.ob(ok, 'R07.2', pe.path, 'loop guard', 'continuation guard must be the strict `precedence < current_token.precedence()`: '
-               'found PartialOrd::%s(%s, %s)' % (meth, a0[:2], a1[:2]), span_loc(t['span']))
-    # dispatch of the loop's inner match
-    disp = {}
-    names = {d: n for n, d in F.enum_variants(tables.TOKEN)}
-    sw = None
-    for b in sorted(body):
-        t = pe.term(b)
-        if t['k'] == 'switch' and len(t['targets']) >= 3:
-            for st in pe.blocks[b]['stmts']:
-                if st['k'] == 'assign' and st['rv']['k'] == 'discr' and st['rv']['enum'] == tables.TOKEN \
-                        and place_fields(st['rv']['place']) == ['current_token']:
-                    sw = (b, t)
-    if sw is None:
-        raise CheckerError('parse_expr: the continuation loop has no match on the current token')
-    for val, tb in sw[1]['targets']:
-        disp[names[val]] = first_parser_call(pe, tb)
-    other = first_parser_call(pe, sw[1]['otherwise'])
+        # which way does the loop go on when the comparison is true?
+        stays_on = None
+        nb = t['target']
+        for _ in range(6):
+            tt = pe.term(nb)
+            if tt['k'] == 'switch' and op_local(tt['op']) is not None:
+                false_t = [tb for v_, tb in tt['targets'] if v_ == 0]
+                true_t = tt['otherwise']
+                def continues(x):
+                    return x in body and header in pe.reachable(x, stop=set()) and any(callee_name(t2).startswith(P) and not callee_name(t2).endswith('advance')
+                                                                                    for b2, t2 in pe.calls(pe.reachable(x, stop={header}) & set(body)))
+                if false_t:
+                    ct, cf = continues(true_t), continues(false_t[0])
+                    stays_on = True if (ct and not cf) else (False if (cf and not ct) else None)
+                break
+            if tt['k'] == 'goto':
+                nb = tt['target']
+            else:
+                break
+        # the loop must go on exactly when  caller's power < power of the current token
+        forms = {('lt', ('param', 2), ('curprec',)): True, ('gt', ('curprec',), ('param', 2)): True,
+                 ('ge', ('param', 2), ('curprec',)): False, ('le', ('curprec',), ('param', 2)): False}
+        ok = forms.get((meth, a0, a1)) is not None and forms[(meth, a0, a1)] == stays_on
+        rep.ob(ok, 'R07.2', pe.path, 'loop guard', 'the continuation loop must go on exactly when `precedence < current_token.precedence()` (strict): '
+               'found PartialOrd::%s(%s, %s), loop continues when it is %s' % (meth, a0[:2], a1[:2], stays_on), span_loc(t['span']))
+    # dispatch of one turn of the loop (constant propagation per token, tables.pratt_tables)
+    pt = tables.pratt_tables(ctx)
+    disp = dict(pt['dispatch'])
+    other = None
+    sw = (None, {'span': pe.span})
     rep.table('pratt_dispatch', disp)
     infix_set = {t for t, c in disp.items() if c == 'parse_infix_expr'}
     want_infix = {tok(lx) for lx in BINARY}
@@ -170,6 +182,14 @@ def run(ctx, rep):
     n_rec = 0
     for p in AbsInt(F, pi).run():
         names_ = [c[1] for c in p.calls]
+        r_ = simp(p.env.get('_0'))
+        opassign = False
+        for c_ in p.constraints:
+            v_ = c_[0][1] if c_[0][0] == 'switch' else None
+            if v_ and v_[0] == 'call' and v_[1].endswith('PartialEq>::eq') and truth(c_) and ('enum', tables.TOKEN, tok('=')) in [deref(p.env, a_) for a_ in v_[2]]:
+                opassign = True
+        if opassign and (P + 'parse_op_assign_expression') not in F.fns:
+            continue        # the `a op= e` path (R07.3): its right-hand side is a whole expression
         for i, c in enumerate(p.calls):
             if c[1] == P + 'parse_expr':
                 n_rec += 1
@@ -178,11 +198,22 @@ def run(ctx, rep):
                 order_ok = False
                 if okp:
                     src = power[2][0]
-                    okp = src == ('ref', '_1.*.f1') or (src[0] == 'ref' and src[1].endswith('.f1'))
                     pb = power[3]
                     idx_prec = next((j for j, cc in enumerate(p.calls) if cc[0] == pb and cc[1].endswith('::precedence')), None)
                     idx_adv = [j for j, cc in enumerate(p.calls) if cc[1] == P + 'advance']
-                    order_ok = idx_prec is not None and idx_adv and idx_prec < idx_adv[0] < i
+                    if src == ('ref', '_1.*.f1') or (src[0] == 'ref' and src[1].endswith('.f1')):
+                        # precedence() of self.current_token itself: must be read before advance()
+                        order_ok = idx_prec is not None and idx_adv and idx_prec < idx_adv[0] < i
+                    elif src[0] == 'ref' and src[1][1:].isdigit() and p.env.get(src[1]) == ('field', ('deref', ('local', 1)), 'current_token'):
+                        # precedence() of a local copy of the current token: the copy must have been taken before advance()
+                        ds_ = pi.defs().get(int(src[1][1:]), [])
+                        adv_blocks = [p.calls[j][0] for j in idx_adv]
+                        order_ok = len(ds_) == 1 and bool(adv_blocks) and ds_[0][1] in p.blocks and \
+                            p.blocks.index(ds_[0][1]) <= p.blocks.index(adv_blocks[0]) and idx_adv[0] < i
+                        if ds_ and ds_[0][1] == adv_blocks[0]:
+                            order_ok = order_ok and ds_[0][0] == 'assign'      # a statement of the block precedes its terminator call
+                    else:
+                        okp = False
                 rep.ob(okp and order_ok, 'R07.2', pi.path, 'recursive power',
                        "the right operand is parsed with the operator token's own power, read before advance(): %s" % show(power), span_loc(c[4]['span']))
                 break
@@ -191,37 +222,67 @@ def run(ctx, rep):
         rep.bad('R07.2', pi.path, 'recursive power', 'parse_infix_expr never calls parse_expr', pi.loc())
 
     # ---- R07.3 op-assign -----------------------------------------------------------------------
-    po = F.fn(P + 'parse_op_assign_expression')
+    # wherever `a op= e` is built (its own routine, or inside parse_infix_expr): the Ok value must be
+    # Assign{a, Infix{a, op, parse_expr(Lowest)}} and it is built only after `=` was seen behind an identifier
+    def is_box_new(x):
+        return x[0] == 'call' and x[1].startswith('alloc::boxed::Box') and x[1].endswith('::new')
+
+    def assign_shape(r, p, is_left, is_op):
+        e_ = r[3][0]
+        assert e_[0] == 'agg' and e_[1] == 'ast::Expr' and e_[2] == 'Assign', 'returns Expr::Assign'
+        bl, br = e_[3]
+
+        def unbox(x):
+            assert is_box_new(x), 'Box::new'
+            return x[2][0]
+        L = unbox(bl)
+        assert is_left(L, p), 'Assign.left is the `left` parameter (or its clone): %s' % show(L)
+        R_ = unbox(br)
+        assert R_[0] == 'agg' and R_[2] == 'Infix', 'Assign.right is Expr::Infix'
+        il, iop, ir = R_[3]
+        IL = unbox(il)
+        assert is_left(IL, p), 'Infix.left is `left`: %s' % show(IL)
+        assert is_op(iop, p), 'Infix.operator is the operator that was read: %s' % show(iop)
+        IR = unbox(ir)
+        assert IR[0] == 'okval' and IR[1][0] == 'call' and IR[1][1] == P + 'parse_expr', 'Infix.right is the parsed right-hand side'
+        pw = IR[1][2][1]
+        assert pw == ('enum', tables.PREC, tp['order'][0]), 'right-hand side parsed with the lowest power (so `a += e` is a + (e)): %s' % show(pw)
+
+    def left_param(x, p):
+        x = deref(p.env, x) if x[0] == 'ref' else x
+        return x == ('local', 2) or (x[0] == 'call' and 'clone' in x[1] and (x[2][0] in (('ref', '_2'),) or deref(p.env, x[2][0]) == ('local', 2)))
+
+    builder = P + 'parse_op_assign_expression' if (P + 'parse_op_assign_expression') in F.fns else P + 'parse_infix_expr'
+    po = F.fn(builder)
     found = False
     for p in AbsInt(F, po).run():
         r = simp(p.env.get('_0'))
-        if not (r and r[0] == 'agg' and r[2] == 'Ok'):
+        if not (r and r[0] == 'agg' and r[2] == 'Ok' and r[3] and r[3][0][0] == 'agg' and r[3][0][2] == 'Assign'):
+            if builder.endswith('parse_op_assign_expression') and r and r[0] == 'agg' and r[2] == 'Ok':
+                found = True
+                rep.bad('R07.3', po.path, 'Ok value shape', 'a op= e  ==>  Assign{a, Infix{a, op, (e)}}: returns %s' % show(r)[:120], po.loc())
             continue
         found = True
-        e = r[3][0]
         why = ''
         ok = False
         try:
-            assert e[0] == 'agg' and e[1] == 'ast::Expr' and e[2] == 'Assign', 'returns Expr::Assign'
-            bl, br = e[3]
-
-            def unbox(x):
-                assert x[0] == 'call' and x[1].startswith('alloc::boxed::Box') and x[1].endswith('::new'), 'Box::new'
-                return x[2][0]
-            L = unbox(bl)
-            left_ok = L == ('local', 2) or (L[0] == 'call' and L[1].endswith('Clone>::clone') and deref(p.env, L[2][0]) in (('local', 2),) ) \
-                or (L[0] == 'call' and 'clone' in L[1] and L[2][0] == ('ref', '_2'))
-            assert left_ok, 'Assign.left is the `left` parameter (or its clone): %s' % show(L)
-            R = unbox(br)
-            assert R[0] == 'agg' and R[2] == 'Infix', 'Assign.right is Expr::Infix'
-            il, iop, ir = R[3]
-            IL = unbox(il)
-            assert IL == ('local', 2) or (IL[0] == 'call' and 'clone' in IL[1] and IL[2][0] == ('ref', '_2')), 'Infix.left is `left`: %s' % show(IL)
-            assert iop == ('local', 3), 'Infix.operator is the `operator` parameter: %s' % show(iop)
-            IR = unbox(ir)
-            assert IR[0] == 'okval' and IR[1][0] == 'call' and IR[1][1] == P + 'parse_expr', 'Infix.right is the parsed right-hand side'
-            pw = IR[1][2][1]
-            assert pw == ('enum', tables.PREC, tp['order'][0]), 'right-hand side parsed with the lowest power (so `a += e` is a + (e)): %s' % show(pw)
+            if builder.endswith('parse_op_assign_expression'):
+                assign_shape(r, p, left_param, lambda x, p_: x == ('local', 3))
+            else:
+                # the operator is the one converted from the token that was current on entry (before any advance())
+                def op_read(x, p_):
+                    x = simp(x)
+                    if not (x[0] == 'call' and (x[1].endswith('::parse_operator') or 'ast::Operator as core::convert::From' in x[1])):
+                        return False
+                    names_ = [c[1] for c in p_.calls]
+                    k = next((i for i, c in enumerate(p_.calls) if c[0] == x[3] and c[1] == x[1]), None)
+                    adv = [i for i, n_ in enumerate(names_) if n_ == P + 'advance']
+                    if x[1].endswith('::parse_operator'):
+                        return k is not None and (not adv or k < adv[0])
+                    # Operator::from(tok): tok is the current token copied before the first advance()
+                    a0 = deref(p_.env, x[2][0]) if x[2][0][0] == 'ref' else x[2][0]
+                    return 'current_token' in show(a0) or a0 == ('field', ('deref', ('local', 1)), 'current_token')
+                assign_shape(r, p, left_param, op_read)
             ok = True
         except AssertionError as ex:
             why = str(ex)
@@ -231,7 +292,10 @@ def run(ctx, rep):
     # entry condition in parse_infix_expr
     entered = 0
     for p in AbsInt(F, pi).run():
-        if any(c[1] == P + 'parse_op_assign_expression' for c in p.calls):
+        r = simp(p.env.get('_0'))
+        builds = any(c[1] == P + 'parse_op_assign_expression' for c in p.calls) or \
+            (not builder.endswith('parse_op_assign_expression') and p.exit == 'return' and r and r[0] == 'agg' and r[2] == 'Ok' and r[3] and r[3][0][0] == 'agg' and r[3][0][2] == 'Assign')
+        if builds:
             entered += 1
             conds = [c for c in p.constraints if c[0][0] == 'switch']
             tok_eq = False
@@ -329,20 +393,7 @@ def run(ctx, rep):
         rep.ob(o_ in binops, 'R07.6', of['fn'].path, 'Token::%s' % t, 'infix token maps to a binary operator (got %s)' % o_, of['fn'].loc())
     rep.ob(len(set(img.values())) == len(img), 'R07.6', of['fn'].path, 'injective on infix tokens', str(img), of['fn'].loc())
     # prefix dispatch: tokens whose first-match arm calls parse_prefix_expr
-    first_sw = None
-    for b in range(len(pe.blocks)):
-        if b in body:
-            continue
-        t = pe.term(b)
-        if t['k'] == 'switch' and len(t['targets']) >= 5:
-            for st in pe.blocks[b]['stmts']:
-                if st['k'] == 'assign' and st['rv']['k'] == 'discr' and st['rv']['enum'] == tables.TOKEN:
-                    first_sw = t
-            if first_sw:
-                break
-    if first_sw is None:
-        raise CheckerError('parse_expr: no initial match on the current token')
-    prefix_set = {names[val] for val, tb in first_sw['targets'] if first_parser_call(pe, tb) == 'parse_prefix_expr'}
+    prefix_set = {tk for tk, c_ in pt['first'].items() if c_ == 'parse_prefix_expr'}
     rep.table('prefix_tokens', sorted(prefix_set))
     rep.ob(prefix_set == {tok('!'), tok('-')}, 'R07.6', pe.path, 'prefix token set', 'prefix operators are ! and -: %s' % sorted(prefix_set), pe.loc())
     for t in sorted(prefix_set):
